@@ -65,4 +65,22 @@ theorem readN_app (X w R : Bytes) : readN (X ++ w ++ R) X.length w.length = some
     simp only [List.length_cons, readN]
     rw [show (X ++ c :: t ++ R)[X.length]? = some c by simp, snoc_shift, this]; simp
 
+/-- any memory with a NUL at or behind index 0 is a NUL-free string, its terminator and a rest -/
+theorem hasNul_split (text : Bytes) (h : ∃ n : Nat, text[n]? = some 0) : ∃ s R, text = s ++ 0 :: R ∧ 0 ∉ s := by
+  obtain ⟨n, hn⟩ := h
+  induction text generalizing n with
+  | nil => simp at hn
+  | cons c t ih =>
+    by_cases hc : c = 0
+    · exact ⟨[], t, by simp [hc], by simp⟩
+    · cases n with
+      | zero => simp at hn; exact absurd hn hc
+      | succ n =>
+        obtain ⟨s, R, hs, hz⟩ := ih n (by simpa using hn)
+        refine ⟨c :: s, R, by simp [hs], ?_⟩
+        intro hm
+        rcases List.mem_cons.mp hm with e | hm
+        · exact hc e.symm
+        · exact hz hm
+
 end IwModel.CStr
